@@ -96,6 +96,21 @@ def manager_cases(draw, tier="quick", tasks=("detection", "tracking", "fp_valida
         crit = draw(range_cfg(n, narrow=True, allow_uuids=True, n_gt=len(sc["gt"])))
         if n > 1 and draw(st.integers(0, 2)) == 0:
             crit["perm"] = list(draw(st.permutations(list(range(n)))))
+        if crit["kind"] == "dist" and draw(st.integers(0, 1)) == 0:
+            # an elevated / sunken annotation (with its estimates) 3 % inside or outside a distance bound in the ego's
+            # ground plane: the PLANAR distance decides, the 3D range lies on the other side of the bound
+            cand = [g for g in sc["gt"] if g["label"] in targets and math.hypot(g["p"][0], g["p"][1]) > 1e-3]
+            if cand:
+                g = cand[draw(st.integers(0, len(cand) - 1))]
+                li = targets.index(g["label"])
+                use_min = crit["min_d"] > 0 and draw(st.booleans())
+                b = crit["min_d"] if use_min else crit["max_d"][li]
+                r0 = math.hypot(g["p"][0], g["p"][1])
+                k = (b * 0.97) / r0
+                dz = draw(st.sampled_from([1, -1])) * (0.3 * b + 0.5)
+                dx, dy = g["p"][0] * (k - 1), g["p"][1] * (k - 1)
+                for o in [g] + [e for e in sc["est"] if math.dist(e["p"][:2], g["p"][:2]) < 2.5]:
+                    o["p"] = [o["p"][0] + dx, o["p"][1] + dy, o["p"][2] + dz]
         pf = draw(st.one_of(st.none(), GEN.per_label(n, st.sampled_from([0.6, 1.2, 2.5, 0.6, 1.2, 2.5, 0.0]))))
         # track ids are unique per frame: frames are independent scenes, and a ground-truth instance never changes its
         # category between frames of a dataset (consistent multi-frame tracks are generated by checks/c05.tracking_histories)
